@@ -1,6 +1,8 @@
 //! C03 — information content = -ln(n/N) per kind.
 
 use super::common::*;
+use crate::build::*;
+use crate::ensure;
 use crate::gen;
 use crate::model::*;
 use crate::observe::*;
@@ -55,12 +57,127 @@ pub fn check(c: &OntCase, stats: &mut Stats) -> CheckResult {
     Ok(())
 }
 
+/// Border values of n and N for the direct check of the public `InformationContent` setters.
+fn border_counts() -> Vec<usize> {
+    let mut v: Vec<usize> = vec![0, 1, 2, 3, 4, 5, 7, 8, 9, 10, 15, 16, 17, 29, 30, 31, 32, 33, 63, 64, 65, 100, 127, 128, 129, 169, 170, 171, 254, 255, 256, 257, 511, 512, 513, 999, 1000, 1023, 1024, 4095, 4096, 9999, 10_000, 16_383, 16_384, 32_767, 32_768, 32_769, 40_000, 50_000, 65_534, 65_535];
+    v.extend((1..=16).map(|k| k * 4001));
+    v.sort_unstable();
+    v.dedup();
+    v
+}
+
+/// `InformationContent::set_*(total, current)` is the formula itself: checked on a grid of border
+/// values for all three kinds; beyond the documented u16 limit an error (never a wrong value) is accepted.
+pub fn check_setters(stats: &mut Stats) -> CheckResult {
+    use hpo::term::{InformationContent, InformationContentKind};
+    let b = border_counts();
+    let kinds = [InformationContentKind::Gene, InformationContentKind::Omim, InformationContentKind::Orpha];
+    for total in b.iter().copied().chain([65_536usize, 65_537, 100_000, 1 << 24, u32::MAX as usize]) {
+        let mut prev: Option<(usize, f32)> = None;
+        for current in b.iter().copied().chain([65_536usize, 100_000]) {
+            if current > total {
+                continue;
+            }
+            for k in 0..3 {
+                stats.eval(1);
+                let r = guarded(|| {
+                    let mut ic = InformationContent::default();
+                    let r = match k {
+                        0 => ic.set_gene(total, current),
+                        1 => ic.set_omim_disease(total, current),
+                        _ => ic.set_orpha_disease(total, current),
+                    };
+                    (r.is_ok(), [ic.gene(), ic.omim_disease(), ic.orpha_disease()], ic.get_kind(&kinds[k]))
+                });
+                let (ok, vals, by_kind) = match r {
+                    Ok(x) => x,
+                    Err(p) => return fail("ic/setter/panic", format!("InformationContent::set_{}({total},{current}) panicked: {p}", KIND_NAMES[k])),
+                };
+                let within_limit = total <= 65_535 || current == 0;
+                if !ok {
+                    ensure!(!within_limit, "ic/setter/error-within-limit", "set_{}({total},{current}) returned an error below the documented limit of 65535", KIND_NAMES[k]);
+                    continue;
+                }
+                let want = ic_of(current, total);
+                let x = vals[k];
+                ensure!(x.is_finite() && x >= 0.0, "ic/setter/range", "set_{}({total},{current}) gives {x}", KIND_NAMES[k]);
+                ensure!(close_f32(x, want, 1e-5), "ic/setter/value", "set_{}({total},{current}) gives {x}, -ln(n/N) = {want}", KIND_NAMES[k]);
+                ensure!((x == 0.0) == (current == 0 || total == 0 || current == total), "ic/setter/zero", "set_{}({total},{current}) gives {x}: must be 0 exactly when n=0, N=0 or n=N", KIND_NAMES[k]);
+                ensure!(by_kind.to_bits() == x.to_bits(), "ic/setter/get_kind", "get_kind differs from the accessor after set_{}({total},{current})", KIND_NAMES[k]);
+                for o in 0..3 {
+                    ensure!(o == k || vals[o] == 0.0, "ic/setter/other-kind-touched", "set_{}({total},{current}) changed the {} value to {}", KIND_NAMES[k], KIND_NAMES[o], vals[o]);
+                }
+                if k == 0 {
+                    if let Some((pc, px)) = prev {
+                        ensure!(pc == 0 || x <= px, "ic/setter/not-monotone", "N={total}: IC({pc}) = {px} < IC({current}) = {x}");
+                    }
+                    prev = Some((current, x));
+                }
+            }
+        }
+    }
+    stats.label("setter-grid");
+    Ok(())
+}
+
+/// Large record counts: N_gene = `ng` (up to the documented limit 65535), N_omim, N_orpha differ; a chain
+/// 1 <- 118 <- 10 <- 11 <- 12 plus a side branch 118 <- 20, records spread over the terms by residue.
+pub fn check_large(ng: u32, no: u32, nr: u32, path: PathSel, stats: &mut Stats) -> CheckResult {
+    let mut f = Facts::default();
+    f.version = (2024, 1, 1);
+    for (id, name) in [(1u32, "All"), (118, "Phenotypic abnormality"), (10, "a"), (11, "b"), (12, "c"), (20, "d"), (5, "Mode of inheritance")] {
+        f.terms.push(TermFact { id, name: name.into(), obsolete: false, replacement: None });
+    }
+    f.edges = vec![(118, 1), (5, 1), (10, 118), (11, 10), (12, 11), (20, 118), (12, 20)];
+    let spots = [12u32, 11, 10, 20, 118, 12, 20, 11];
+    for (k, n) in [(GENE, ng), (OMIM, no), (ORPHA, nr)] {
+        for r in 0..n {
+            let rid = r + 1;
+            // every 11th record has no term at all, every 7th two terms
+            let mut terms = vec![];
+            if r % 11 != 10 {
+                terms.push(spots[(r as usize + k) % spots.len()]);
+                if r % 7 == 0 {
+                    terms.push(spots[(r as usize / 7 + 3) % spots.len()]);
+                }
+            }
+            terms.sort_unstable();
+            terms.dedup();
+            for t in &terms {
+                f.ann_calls.push(AnnCall { kind: k as u8, rec: rid, term: Some(*t), alt_name: None });
+            }
+            if terms.is_empty() {
+                f.ann_calls.push(AnnCall { kind: k as u8, rec: rid, term: None, alt_name: None });
+            }
+            f.recs[k].push(RecFact { id: rid, name: format!("r{rid}"), terms });
+        }
+    }
+    let c = OntCase { facts: f, path, noise: Default::default() };
+    let b = build_case(&c, stats)?;
+    let m = &b.model;
+    for id in &m.ids {
+        for k in 0..3 {
+            stats.eval(1);
+            let x = b.snap.terms[id].ic(k);
+            let n = m.inh[k][m.i(*id)].len();
+            let total = m.direct[k].len();
+            let want = ic_of(n, total);
+            ensure!(x.is_finite() && x >= 0.0 && close_f32(x, want, 1e-5) && (x == 0.0) == (n == 0 || n == total), format!("ic/large/{}", c.path.name()), "N=({ng},{no},{nr}) ic {} of {id}: {x}, -ln({n}/{total}) = {want}", KIND_NAMES[k]);
+        }
+    }
+    stats.label("records>32767");
+    if ng == 65_535 {
+        stats.label("records=65535");
+    }
+    Ok(())
+}
+
 impl Property for C03 {
     fn id(&self) -> &'static str {
         "C03"
     }
     fn rule(&self) -> String {
-        "Generated: C02 facts (0-10 records per kind, totals biased to differ, kinds with zero records, records without terms, terms linked to all records), every construction path. Oracle: IC_k(t) compared with -ln(n/N) computed in f64 from the model's inherited sets (relative tolerance 1e-5 for the f32 result); exactly 0 when n=0 or N=0; finite and >=0 exactly; for every ancestor/descendant pair that both carry the kind IC(desc) >= IC(anc) exactly; get_kind equals the three accessors. evaluations = term-kind values compared. Non-trivial = the three totals N are pairwise different and some term has 0<n<N; distinct = hash(canonical facts, path).".into()
+        "Generated: C02 facts (0-10 records per kind, totals biased to differ, kinds with zero records, records without terms, terms linked to all records), every construction path. Oracle: IC_k(t) compared with -ln(n/N) computed in f64 from the model's inherited sets (relative tolerance 1e-5 for the f32 result); exactly 0 when n=0 or N=0; finite and >=0 exactly; for every ancestor/descendant pair that both carry the kind IC(desc) >= IC(anc) exactly; get_kind equals the three accessors. Deterministic sub-sweeps (both tiers): the public setters InformationContent::set_gene/set_omim_disease/set_orpha_disease on a grid of border values of (N, n) up to 65535 and beyond (beyond the documented u16 limit an error is accepted, a wrong value or a panic is not; exact zero iff n=0, N=0 or n=N; monotone in n; other kinds untouched), and ontologies with up to 65535 records per kind through the Builder and the binary loader. evaluations = term-kind values compared. Non-trivial = the three totals N are pairwise different and some term has 0<n<N; distinct = hash(canonical facts, path).".into()
     }
     fn assumptions(&self) -> Vec<String> {
         vec![
@@ -75,13 +192,59 @@ impl Property for C03 {
         }
     }
     fn required_labels(&self, _tier: Tier) -> Vec<&'static str> {
-        vec!["nontrivial", "ancestors>30", "parents>30", "records>255", "kind-with-zero-records", "term-linked-to-all-records", "rec-without-terms"]
+        vec!["nontrivial", "ancestors>30", "parents>30", "records>255", "kind-with-zero-records", "term-linked-to-all-records", "rec-without-terms", "setter-grid", "records>32767", "records=65535"]
     }
     fn run_generated(&self, tier: Tier, seed: u64, n: u64, stats: &mut Stats) -> Option<(Value, Failure)> {
         let max = if tier == Tier::Quick { 44 } else { 90 };
         run_typed(ont_case_strategy(max, 10, false), seed, n, stats, check)
     }
     fn replay(&self, case: &Value, stats: &mut Stats) -> Result<CheckResult, String> {
+        if case.get("setter_grid").is_some() {
+            stats.cases += 1;
+            return Ok(check_setters(stats));
+        }
+        if let Some(l) = case.get("large") {
+            let v: (u32, u32, u32, PathSel) = serde_json::from_value(l.clone()).map_err(|e| e.to_string())?;
+            stats.cases += 1;
+            return Ok(check_large(v.0, v.1, v.2, v.3, stats));
+        }
         replay_typed::<OntCase, _>(case, stats, check)
+    }
+    fn extra(&self, tier: Tier, seed: u64, stats: &mut Stats) -> Vec<(Value, Failure)> {
+        let mut out = Vec::new();
+        stats.cases += 1;
+        if let Err(f) = check_setters(stats) {
+            out.push((json!({"setter_grid": true}), f));
+        }
+        // record counts up to the documented limit, through the Builder and the binary loader
+        let vary = (seed % 997) as u32;
+        let mut plans = vec![(65_535u32, 40_000 + vary, 300u32, PathSel::Builder), (33_000 + vary, 65_535, 32_768, PathSel::Bin(3))];
+        if tier == Tier::Thorough {
+            plans.push((65_535, 65_535, 65_534, PathSel::RoundTrip));
+            plans.push((50_000 + vary, 257, 65_535, PathSel::BuilderDefaults));
+            plans.push((32_768, 32_767, 32_769, PathSel::Bin(2)));
+        }
+        let results: Vec<(Stats, Option<(Value, Failure)>)> = std::thread::scope(|sc| {
+            let hs: Vec<_> = plans
+                .iter()
+                .map(|p| {
+                    let p = *p;
+                    sc.spawn(move || {
+                        let mut st = Stats::default();
+                        st.cases += 1;
+                        let r = check_large(p.0, p.1, p.2, p.3, &mut st);
+                        (st, r.err().map(|f| (json!({"large": p}), f)))
+                    })
+                })
+                .collect();
+            hs.into_iter().filter_map(|h| h.join().ok()).collect()
+        });
+        for (st, r) in results {
+            stats.merge(st);
+            if let Some(x) = r {
+                out.push(x);
+            }
+        }
+        out
     }
 }
